@@ -190,6 +190,11 @@ func (s *sender) recvAck(ackNo uint32) (uint32, error) {
 		return 0, errTooManyDuplicateACKs
 	}
 
+	if newAckNo > s.ackNo && newAckNo-s.ackNo > uint64(len(s.frames)) {
+		// The peer acknowledges frames that were never sent.
+		return 0, errAckBeyondSent
+	}
+
 	// to not apply on the first 20 ACKs as the network probing is inaccurate
 	if oldAckNo == newAckNo && newAckNo > 20 {
 		missingFrameNo = s.onLoss(ackNo)
